@@ -32,8 +32,13 @@ case = {
                                          the members of every ArFile opened so far (first one, reopens, replaces),
                                          in filename mode without those whose file a "replace" has taken away
 }
-op = ["read", i]            m.read()                 ["read", i, n]      m.read(n), n >= 1
-     ["readline", i]        m.readline()             ["readline", i, n]  m.readline(n), n >= 0
+op = ["read", i]            m.read()                 ["read", i, n]      m.read(n), n an integer other than 0
+     ["readline", i]        m.readline()             ["readline", i, n]  m.readline(n), n = None or any integer
+                            (the size argument of io's read / readline: n > 0 is an upper bound for the
+                            bytes returned, however far beyond the rest of the member it lies; a negative n of
+                            any magnitude - and None for readline - means no bound, i.e. to the member's end /
+                            the line's end; |n| <= 2**63 - 1.  read(0) and read(None) are not generated, see
+                            ASSUMPTIONS)
      ["readlines", i]       m.readlines()            ["tell", i]         m.tell()
      ["readlines", i, h]    m.readlines(h), h = None or an integer of either sign (the size hint of
                             io readlines: h > 0 stops after the line with which the lines read so far
@@ -95,14 +100,16 @@ RULE = ("cases are (open mode, 0..5 members with name/style/binary data/metadata
         "contents, both open modes (filename mode one operation shorter); every history of <=3 steps with "
         "exactly one reopen (quick: 4 contents, filename mode without the shapes Roo/ooR); big members: for "
         "each power of two B from 4 KiB to 1 MiB, 11 first-member contents of 1..3.25 B bytes, written as "
-        "lit/repeat/noise/line pieces and expanded in the check, x 13 fixed histories (2 of them readlines with size hints around B, 1 with the archive replaced twice) x both open modes, and, for "
-        "the odd-sized ones, the big member as the last of the archive with the file ending at its last byte x 5 "
+        "lit/repeat/noise/line pieces and expanded in the check, x 14 fixed histories (2 of them readlines with size hints around B, 1 with read / readline sizes -B, -B-1, -2, 2**40, 2**63-1, 1 with the archive replaced twice) x both open modes, and, for "
+        "the odd-sized ones, the big member as the last of the archive with the file ending at its last byte x 6 "
         "of the histories; no-final-pad: 15 small archives ending in an odd-sized member, written without the "
         "final pad byte, x every history of <=2 operations, with and without a second ArFile (quick, filename mode: "
         "<=1 operation before/after the second ArFile; thorough: <=3); "
         "readlines-hints: 4 archives (thorough 7) x every history of <=3 operations (quick, filename mode: <=2) "
         "from readlines(h), h in None/0/-1/1/2/3 (thorough also -2/6/11), readline, read(1) and 3 seeks on 2 "
-        "members; archive-at-offset: 7 small preambles (1 byte, a script, a bare global header, other archives "
+        "members; size-arguments: 3 archives (thorough 6) x every history of <=3 operations (quick, filename mode: "
+        "<=2) from read(n), n in -1/-2/-7/2**63-1, readline(n), n in None/-1/-2/2**63-1 (thorough also -2**31, "
+        "-(2**63-1), 3, 2**31, 2**32+1), readline(), read(1) and 3 seeks on 2 members; archive-at-offset: 7 small preambles (1 byte, a script, a bare global header, other archives "
         "with and without pad byte / with the same member names, a mix) and 18 big ones (B, B+1 bytes for each "
         "power of two B from 4 KiB to 1 MiB) x 4 (big: 2) archives x every history of <=2 operations, with and "
         "without a second ArFile (thorough: <=3), from the 14-operation alphabet; "
@@ -119,12 +126,14 @@ RULE = ("cases are (open mode, 0..5 members with name/style/binary data/metadata
         "reopen). "
         "Generated: Hypothesis archives x histories (members <=64 bytes; the final pad byte is left out in half of "
         "the archives that end in an odd-sized member; in half of the fileobj cases the archive is preceded by 1..2 "
-        "parts, each <=64 bytes or an archive of 0..2 members; readlines hints None, 0, -50..-1, 1..45; in half of "
+        "parts, each <=64 bytes or an archive of 0..2 members; readlines hints None, 0, -50..-1, 1..45; read(n) with "
+        "n in 1..45 or, as often, -50..-1, +-(2**e+d) for e = 7..62, d = -2..2, +-(2**63-1); readline(n) with n in "
+        "0..45 or None or these same sizes; in half of "
         "the cases 1..2 replacing archives, each drawn afresh (0..3 members) or the one before it with all names "
         "and sizes kept and every byte changed, replaced in one of the 3 ways); "
         "Hypothesis big members (1..4 pieces "
         "with sizes k*2**e+d, e = 12..20, k = 1..3, d = -3..3, <=3.5 MiB) x histories of <=12 operations whose "
-        "read/readline sizes, readlines hints (both signs), seek targets and preamble sizes are drawn from the "
+        "read/readline sizes (both signs), readlines hints (both signs), seek targets and preamble sizes are drawn from the "
         "same k*2**e+d family, in half of the cases with 1..2 replacing archives (0..2 small or big members, or the "
         "same sizes with other bytes); thorough also builds "
         "the archive with binutils ar. Non-trivial = >=2 members (in the archive under test or one that replaces it) and (a readline/readlines call that "
@@ -139,8 +148,15 @@ ASSUMPTIONS = [
     "needs aligning; binutils ar t/p and dpkg-deb -c/-I/-x read such files without complaint (checked by hand "
     "with GNU ar 2.40 and dpkg-deb 1.21.22; bsdtar lists every member, then warns). Every pad byte between "
     "members is always written; the binutils-built archives (writer 'ar') always carry the final one",
-    "read(0)/negative sizes, negative seek targets, next()/iteration are outside "
+    "negative seek targets, next()/iteration are outside "
     "the statement and never generated; seek()'s return value is not compared (checked via tell())",
+    "read(n) / readline(n) are read / readline with their documented size parameter, and the quantifier restricts "
+    "target positions, not sizes: the reference is io.BytesIO.read(n) / readline(n) itself for every integer n with "
+    "0 < |n| <= 2**63-1 (the C ssize_t range io.BytesIO accepts; any negative n = no bound, a positive n beyond the "
+    "rest of the member = the rest), readline also for n = 0 and None. Two values are never generated: read(0), "
+    "which this library documents by its default (def read(self, size=0)) as 'everything', unlike io; and "
+    "read(None), because the library types read's parameter as int (readline's as Optional[int]) - the unchanged "
+    "library raises TypeError for it",
     "readlines(hint) is readlines with its documented parameter: the reference is io.BytesIO.readlines(hint) "
     "itself, for hint = None, 0, negative (all remaining lines) and positive (stop after the line with which the "
     "lines read so far reach hint bytes); |hint| <= 2**31, far inside the C ssize_t io.BytesIO accepts",
@@ -184,14 +200,14 @@ EXHAUSTIVE_REOPEN = {
 }
 EXHAUSTIVE_BIG = ("for every block size B = 2**12 .. 2**20: 11 contents of a first member of 1..3.25 B bytes (one "
                   "line without end, a line of 3 B inside short ones, a line of 1.25 B, arbitrary bytes, short "
-                  "lines filling exactly B / 2B or ending 1..3 bytes past / 1 byte before a multiple of B) x 13 "
+                  "lines filling exactly B / 2B or ending 1..3 bytes past / 1 byte before a multiple of B) x 14 "
                   "fixed histories (readlines from the start, after a seek, after read(B+1), after readline(B+5); "
                   "read()/readline loops; a second ArFile; readlines with the size hints B, B+1, 2, -1 and 1, 2B-1, "
-                  "None, 0; read(B), then the archive replaced by one with the same sizes and other bytes, read(B+1) / "
+                  "None, 0; readline(-B), read(-B-1), readline(2**63-1), read(-2), read(2**40); read(B), then the archive replaced by one with the same sizes and other bytes, read(B+1) / "
                   "readlines there, replaced again by the members in the other order) x both open modes; for the "
                   "contents of odd size also the "
                   "archive [small member, big member] whose file ends with the big member's last byte (no final "
-                  "pad byte) x 5 of these histories x both open modes")
+                  "pad byte) x 6 of these histories x both open modes")
 BUDGET = {"quick": 200, "thorough": 1500}
 
 MAX_MEMBER_SIZE = 8 << 20     # replay files only: generated members stay below 4 MiB
@@ -199,6 +215,7 @@ MAX_REOPENS = 3
 MAX_REPLACES = 4              # len(case["then"])
 HOWS = ("unlink", "rename", "rewrite")      # how the file of filename mode is replaced, see the docstring
 MAX_HINT = 1 << 31            # readlines(h): |h| stays far inside what io.BytesIO accepts (a C ssize_t)
+MAX_SIZE = (1 << 63) - 1      # read(n) / readline(n): |n| <= the largest C ssize_t, which io.BytesIO accepts
 
 
 
@@ -252,9 +269,9 @@ def _valid_op(op):
     if k == "readlines":
         return n == 2 or (n == 3 and (op[2] is None or (type(op[2]) is int and abs(op[2]) <= MAX_HINT)))
     if k == "read":
-        return n == 2 or (n == 3 and isinstance(op[2], int) and op[2] >= 1)
+        return n == 2 or (n == 3 and type(op[2]) is int and op[2] != 0 and abs(op[2]) <= MAX_SIZE)
     if k == "readline":
-        return n == 2 or (n == 3 and isinstance(op[2], int) and op[2] >= 0)
+        return n == 2 or (n == 3 and (op[2] is None or (type(op[2]) is int and abs(op[2]) <= MAX_SIZE)))
     if k == "seek":
         return n == 4 and op[2] in (0, 1, 2) and isinstance(op[3], int) and op[3] >= 0
     return False
@@ -410,6 +427,17 @@ def _first_difference(got, exp):
     return " - as byte strings they first differ at byte %d of the result" % k
 
 
+def _size_argument(n, rest):
+    """Label for the size argument of read(n) / readline(n); rest = bytes from the position to the member's end."""
+    if n is None or n == 0:
+        return repr(n)
+    if n < 0:
+        return "-1" if n == -1 else "negative-other-than--1" if n > -(1 << 31) else "negative,<=-2**31"
+    if n >= (1 << 31):
+        return "positive,>=2**31"
+    return "positive,within-the-rest" if n <= rest else "positive,beyond-the-rest"
+
+
 class _Obj(object):
     """One member object handed out by the library, with its in-memory reference."""
     __slots__ = ("m", "s", "data", "arno", "k", "gen", "opened", "closed")
@@ -495,12 +523,14 @@ def _run_history(archives, ops, labels, open_ar, install):
             else:
                 got, exp = m.read(op[2]), s.read(op[2])
                 labels.add("op:read(n)")
+                labels.add("read-size:" + _size_argument(op[2], size - start))
         elif kind == "readline":
             if len(op) == 2:
                 got, exp = m.readline(), s.readline()
             else:
                 got, exp = m.readline(op[2]), s.readline(op[2])
                 labels.add("op:readline(n)")
+                labels.add("readline-size:" + _size_argument(op[2], size - start))
         elif kind == "readlines":
             if len(op) == 2:
                 got, exp = m.readlines(), s.readlines()
@@ -886,6 +916,54 @@ def enum_hint_cases(plan):
 
 
 # ------------------------------------------------------------------------------------------
+# read(n) / readline(n) with the size argument away from the usual values: negative ones other than -1
+# (io: any negative size means "no bound"), None for readline, and positive ones far beyond any member
+# (up to the largest C ssize_t); judged against io.BytesIO.read(n) / readline(n) with the same argument
+
+READ_SIZES_QUICK = [-1, -2, -7, MAX_SIZE]
+READLINE_SIZES_QUICK = [None, -1, -2, MAX_SIZE]
+READ_SIZES_THOROUGH = [-1, -2, -7, -(1 << 31), -MAX_SIZE, 3, 1 << 31, MAX_SIZE]
+READLINE_SIZES_THOROUGH = [None, -1, -2, -7, -(1 << 31) - 1, -MAX_SIZE, 3, (1 << 32) + 1, MAX_SIZE]
+SIZE_OTHER_OPS = [["readline"], ["read", 1], ["seek", 0, 0], ["seek", 0, 1], ["seek", 0, 7]]
+# the first member: lines + unterminated last line, odd size (a pad byte follows) / even size, the next
+# header follows at once / ends in a newline / empty; the second member "x\ny\nz" is the last of the file
+SIZE_FIRST_QUICK = ["a\nbb\nccc\n\nd", "ab\ncd", "a\n"]
+SIZE_FIRST_THOROUGH = SIZE_FIRST_QUICK + ["", "abc", "\n\n\n"]
+SIZE_PLAN_QUICK = [("fileobj", SIZE_FIRST_QUICK, READ_SIZES_QUICK, READLINE_SIZES_QUICK, ("o", "oo", "ooo")),
+                   ("filename", SIZE_FIRST_QUICK, READ_SIZES_QUICK, READLINE_SIZES_QUICK, ("o", "oo"))]
+SIZE_PLAN_THOROUGH = [
+    ("fileobj", SIZE_FIRST_THOROUGH, READ_SIZES_THOROUGH, READLINE_SIZES_THOROUGH, ("o", "oo", "ooo")),
+    ("fileobj", SIZE_FIRST_QUICK, READ_SIZES_QUICK, READLINE_SIZES_QUICK, ("Roo",)),
+    ("filename", SIZE_FIRST_THOROUGH, READ_SIZES_THOROUGH, READLINE_SIZES_THOROUGH, ("o", "oo")),
+    ("filename", SIZE_FIRST_QUICK, READ_SIZES_QUICK, READLINE_SIZES_QUICK, ("ooo",))]
+EXHAUSTIVE_SIZES = {
+    "quick": "archives ['a\\nbb\\nccc\\n\\nd' | 'ab\\ncd' | 'a\\n', 'x\\ny\\nz'] x all histories of 1..3 operations "
+             "(filename mode: 1..2) from read(n) for n in -1, -2, -7, 2**63-1, readline(n) for n in None, -1, -2, "
+             "2**63-1 and readline(), read(1), seek to 0 / 1 / 7, on each of the 2 members: every such size from "
+             "every reachable position (start, inside a line, at the end, beyond the end), followed by every other "
+             "call on the same and on the other member",
+    "thorough": "the same with 3 more first-member contents ('', 'abc', '\\n\\n\\n'), read(n) for n in -1, -2, -7, "
+                "-2**31, -(2**63-1), 3, 2**31, 2**63-1 and readline(n) for n in None, -1, -2, -7, -2**31-1, "
+                "-(2**63-1), 3, 2**32+1, 2**63-1, histories of 1..3 operations in fileobj mode and 1..2 in filename "
+                "mode; with the quick sizes and contents also 3 operations in filename mode and 2 operations on "
+                "the 4 live member objects after a second ArFile (fileobj mode)",
+}
+
+
+def enum_size_cases(plan):
+    def gen():
+        for mode, firsts, read_sizes, readline_sizes, shapes in plan:
+            alphabet = ([["read", n] for n in read_sizes] + [["readline", n] for n in readline_sizes]
+                        + SIZE_OTHER_OPS)
+            for first in firsts:
+                members = [_enum_member("a", first), _enum_member("b", "x\ny\nz")]
+                for shape in shapes:
+                    for ops in _shape_histories(shape, 2, alphabet):
+                        yield {"open": mode, "members": members, "ops": ops}
+    return gen
+
+
+# ------------------------------------------------------------------------------------------
 # the archive does not start at offset 0 of the file object handed to ArFile(fileobj=...)
 
 def _before_list(blocks):
@@ -1139,6 +1217,9 @@ def big_histories(B):
         [["readlines", 0, B], ["tell", 0], ["readlines", 0, B + 1], ["readlines", 1, 2], ["readlines", 0, -1]],
         [["seek", 0, 0, 3], ["readlines", 0, 1], ["readlines", 0, 2 * B - 1], ["readlines", 0, None],
          ["seek", 0, 0, B], ["readlines", 0, 0]],
+        # sizes: negative ones around the block size (no bound), then bounds far beyond the member
+        [["readline", 0, -B], ["seek", 0, 0, 5], ["read", 0, -B - 1], ["tell", 1], ["seek", 0, 0, B - 1],
+         ["readline", 0, MAX_SIZE], ["read", 0, -2], ["seek", 0, 0, 1], ["read", 0, 1 << 40], ["readline", 1, -B]],
         # another archive in its place (case key "then"), the big member having been read up to a block end
         [["read", 0, B], ["readline", 1], ["replace"], ["read", 0, B + 1], ["readlines", 1], ["readlines", 0],
          ["replace"], ["readline", 1], ["readlines", 0]],
@@ -1168,7 +1249,7 @@ def big_cases(blocks, modes):
     return gen
 
 
-BIG_LAST_HISTORIES = (0, 3, 4, 7, 9)     # indices into big_histories()
+BIG_LAST_HISTORIES = (0, 3, 4, 7, 9, 12)     # indices into big_histories()
 
 
 # ------------------------------------------------------------------------------------------
@@ -1205,12 +1286,18 @@ plain_member_st = st.builds(
 # objects), 0..19 those of the re-opened ones as well
 idx_st = st.one_of(st.integers(0, 5), st.integers(0, 19))
 hint_st = st.one_of(st.none(), st.sampled_from([0, -1]), st.integers(1, 6), st.integers(1, 45), st.integers(-50, -1))
+# sizes away from the usual ones: negative (io: no bound) of every magnitude, positive ones beyond any member
+odd_size_st = st.one_of(st.integers(-50, -1), st.integers(-50, -2), st.sampled_from([-1, -2, MAX_SIZE, -MAX_SIZE]),
+                        st.builds(lambda e, d, sign: sign * ((1 << e) + d), st.integers(7, 62), st.integers(-2, 2),
+                                  st.sampled_from([1, -1])))
 op_st = st.one_of(
     st.tuples(st.just("read"), idx_st),
     st.tuples(st.just("read"), idx_st, st.integers(1, 45)),
+    st.tuples(st.just("read"), idx_st, odd_size_st),
     st.tuples(st.just("readline"), idx_st),
     st.tuples(st.just("readline"), idx_st),
     st.tuples(st.just("readline"), idx_st, st.integers(0, 45)),
+    st.tuples(st.just("readline"), idx_st, st.one_of(st.none(), odd_size_st)),
     st.tuples(st.just("readlines"), idx_st),
     st.tuples(st.just("readlines"), idx_st, hint_st),
     st.tuples(st.just("seek"), idx_st, st.sampled_from([0, 1, 2]), st.integers(0, 50)),
@@ -1341,6 +1428,8 @@ big_op_st = st.one_of(
     st.tuples(st.just("readlines"), idx_st),
     st.tuples(st.just("read"), idx_st, big_int_st),
     st.tuples(st.just("readline"), idx_st, big_int_st),
+    st.tuples(st.just("read"), idx_st, big_int_st.map(lambda n: -n)),
+    st.tuples(st.just("readline"), idx_st, big_int_st.map(lambda n: -n)),
     st.tuples(st.just("seek"), idx_st, st.sampled_from([0, 1, 2]), big_int_st),
     st.tuples(st.just("seek"), idx_st, st.just(0), st.integers(0, 12)),
     st.tuples(st.just("readlines"), idx_st, st.one_of(big_int_st, big_int_st, big_int_st.map(lambda n: -n))),
@@ -1373,6 +1462,7 @@ def sources(tier):
                 Hyp("archives-x-histories", case_st(), 1200, shards=8),
                 Enum("header-columns", enum_header_cases(["fileobj", "filename"]), EXHAUSTIVE_HEADER),
                 Enum("readlines-hints", enum_hint_cases(HINT_PLAN_QUICK), EXHAUSTIVE_HINTS["quick"]),
+                Enum("size-arguments", enum_size_cases(SIZE_PLAN_QUICK), EXHAUSTIVE_SIZES["quick"]),
                 Enum("archive-at-offset", enum_offset_cases(OFFSET_QUICK), EXHAUSTIVE_OFFSET["quick"]),
                 Enum("no-final-pad", enum_final_pad_cases(FINAL_PAD_QUICK), EXHAUSTIVE_FINAL_PAD["quick"]),
                 Enum("close-x-siblings", enum_close_cases(CLOSE_QUICK), EXHAUSTIVE_CLOSE["quick"]),
@@ -1386,6 +1476,7 @@ def sources(tier):
             Hyp("archives-x-histories", case_st(), 6000, shards=16),
             Enum("header-columns", enum_header_cases(["fileobj", "filename"]), EXHAUSTIVE_HEADER),
             Enum("readlines-hints", enum_hint_cases(HINT_PLAN_THOROUGH), EXHAUSTIVE_HINTS["thorough"]),
+            Enum("size-arguments", enum_size_cases(SIZE_PLAN_THOROUGH), EXHAUSTIVE_SIZES["thorough"]),
             Enum("archive-at-offset", enum_offset_cases(OFFSET_THOROUGH), EXHAUSTIVE_OFFSET["thorough"]),
             Enum("no-final-pad", enum_final_pad_cases(FINAL_PAD_THOROUGH), EXHAUSTIVE_FINAL_PAD["thorough"]),
             Enum("close-x-siblings", enum_close_cases(CLOSE_THOROUGH), EXHAUSTIVE_CLOSE["thorough"]),
